@@ -85,7 +85,7 @@ def run(ctx):
             if hc and any(k['id'] == 'heading-double-expansion' for k in ctx.known):
                 ctx.known_hits.setdefault('heading-double-expansion', {'what': next(k['line'] for k in ctx.known if k['id'] == 'heading-double-expansion'), 'count': 0})['count'] += 1
                 continue
-            ctx.violation(fails[0], src=c['src'], opts=c['opts'], all=fails[:4])
+            ctx.violation(fails[0], src=c['src'], opts=c['opts'], all=fails[:4], case=semrun.pack(c))
         if len(ctx.samples) < 3:
             ctx.sample({'src': c['src'][:300], 'expected_words': [w for w, _ in exp.seq][:20], 'hidden': sorted(exp.hidden)[:10]})
     corr.t2t(ctx, cases, results, proj=('outcome', 'toks', 'text'), limit=ctx.scale(900, 20000))
@@ -105,8 +105,19 @@ def judge_witness(w):
             fails.append('words %r, expected %r' % (got, w['expect_words']))
     return fails
 
+def rejudge(c):
+    exp = semrun.expected(c)
+    if exp is None:
+        return []
+    c['literal_markup'] = has_literal_markup(c)
+    return judge(c, semrun.run_one(c), exp)
+
 def replay(data):
     v = data['violation']
+    if v.get('case'):
+        f = rejudge(semrun.unpack(v['case']))
+        print('\n'.join(f) if f else 'ok')
+        return not f
     f = judge_witness(v)
     c = {'src': v['src'], 'opts': v.get('opts') or {}, 'multi': False}
     print(repr(t2t.run_case(c).get('txt')))
